@@ -85,9 +85,12 @@ def grid_reason(grid):
     return None
 
 
-def snapshot(grid):
-    return {"axes": [np.array(a, dtype=float).copy() for a in grid.axes], "h": float(grid.h), "o": origin_indices(grid),
-            "trunc": [(float(a), float(b)) for a, b in grid.truncations]}
+def snapshot(grid, with_mids=False):
+    s = {"axes": [np.array(a, dtype=float).copy() for a in grid.axes], "h": float(grid.h), "o": origin_indices(grid),
+         "trunc": [(float(a), float(b)) for a, b in grid.truncations]}
+    if with_mids:   # the cell boundaries the grid itself uses, evaluated on the OLD grid (grid.middle may depend on grid.h)
+        s["mids"] = [[float(grid.middle(float(x), float(y))) for x, y in zip(a, a[1:])] for a in grid.axes]
+    return s
 
 
 def nesting_reason(before, grid, exact_mid=True):
@@ -110,6 +113,8 @@ def nesting_reason(before, grid, exact_mid=True):
             for i in range(len(old) - 1):
                 if ins[i] != 0.5 * (old[i] + old[i + 1]):
                     return f"axis {k}: an inserted state is not grid.middle of its gap"
+        if "mids" in before and not np.array_equal(ins, np.array(before["mids"][k])):
+            return f"axis {k}: an inserted state is not the old grid's own cell boundary middle(x_i, x_i+1)"
     return None
 
 
@@ -313,7 +318,7 @@ def _check_grid_and_refine(res, viol, grid, ctor, args, n_refine=2, exact_mid=Tr
         viol(f"{ctor} returns a malformed grid: " + why.split(":")[-1].strip()[:60], kind="ctor", ctor=ctor, args=args, reason=why, **extra)
         return
     for n in range(1, n_refine + 1):
-        before = snapshot(grid)
+        before = snapshot(grid, with_mids=True)
         try:
             grid.refine()
         except Exception as e:  # noqa
@@ -405,16 +410,18 @@ def _oracle_constructors(res, rng, scale, viol):
                 g = CTMCGridGeometric.create_with_bounds(h=h, truncations=(l, r), dimension=dim, nb_of_points_on_each_side=nb)
                 res.count(("bounds", h, l, r, nb, dim), kind="create_with_bounds")
                 _check_grid_and_refine(res, viol, g, "CTMCGridGeometric.create_with_bounds", {"h": h, "truncations": [l, r], "dim": dim, "nb": nb}, finding="F-C13-4")
-            # probability step (real finite-activity/infinite-activity models; slow root searches: few cases)
+            # probability step (slow root searches: few cases); the grid's own middle is +-h/2 next to the origin and a
+            # root-found equal-probability point elsewhere: inserted states must be the OLD grid's cell boundaries
             if fam in ("HEM", "MERTON", "VG") and rep == 0:
-                h = 0.05
-                try:
-                    g = CTMCGridProbabilityStep(h=h, model=model, minimum_probability_step=0.1)
-                    res.count(("probstep", fam, h), kind="CTMCGridProbabilityStep")
-                    _check_grid_and_refine(res, viol, g, "CTMCGridProbabilityStep", {"model": spec, "h": h, "p": 0.1}, n_refine=1, exact_mid=False)
-                except Exception as e:  # noqa
-                    res.bump("probstep_outcome", type(e).__name__)
-                    res.notes.append(f"CTMCGridProbabilityStep({fam}) raised {type(e).__name__}: {str(e)[:120]}")
+                for h, pstep in ((0.05, 0.1), (0.02, 0.2)):
+                    try:
+                        g = CTMCGridProbabilityStep(h=h, model=model, minimum_probability_step=pstep)
+                        res.count(("probstep", fam, h), kind="CTMCGridProbabilityStep")
+                        _check_grid_and_refine(res, viol, g, "CTMCGridProbabilityStep", {"model": spec, "h": h, "p": pstep},
+                                               n_refine=2 if h == 0.05 else 1, exact_mid=False)
+                    except Exception as e:  # noqa
+                        res.bump("probstep_outcome", type(e).__name__)
+                        res.notes.append(f"CTMCGridProbabilityStep({fam}) raised {type(e).__name__}: {str(e)[:120]}")
         # copula models: shared axes for every margin
         sp = real_model_specs(rng)
         cm = build_copula_model([sp[0], sp[1]], "clayton")
@@ -430,6 +437,21 @@ def _oracle_constructors(res, rng, scale, viol):
                 _check_grid_and_refine(res, viol, g, "CTMCCredit(copula)", {"h": h, "models": [sp[0], sp[1]]}, n_refine=1, finding="F-C13-3")
             except ValueError:
                 res.bump("copula_ctor_outcome", "ValueError")
+        # CTMCCredit in dimension 2 and 3 with well separated thresholds, real truncation search
+        for levels, h in (([-0.05, -0.2], 0.02), ([-0.2, -0.05, -0.1], 0.02), ([-0.3, -0.08], 0.01)):
+            for sym in (True, False):
+                cmN = build_copula_model([sp[k % len(sp)] for k in range(len(levels))], "clayton")
+                try:
+                    g = CTMCCredit(h=h, level_a=list(levels), model=cmN, symmetric_grid=sym)
+                except ValueError:
+                    res.bump("copula_ctor_outcome", "ValueError")
+                    continue
+                res.count(("credit-nd", tuple(levels), h, sym, rep), kind=f"CTMCCredit {len(levels)}d (real truncation)")
+                for k, a in enumerate(levels):
+                    if abs(0.5 * (g.axes[k][1] + g.axes[k][2]) - a) > 1e-15:
+                        viol("CTMCCredit: the cell boundary between the two threshold states is not the threshold", kind="ctor",
+                             ctor="CTMCCredit(copula)", args={"h": h, "levels": levels, "sym": sym})
+                _check_grid_and_refine(res, viol, g, "CTMCCredit(copula)", {"h": h, "levels": levels, "sym": sym}, n_refine=2, finding="F-C13-3")
 
 
 def search(res):
